@@ -295,8 +295,11 @@ def run_delta(case, res):
         if d1 is not S.One:
             res.violation(f'delta({a},{a}) = {d1}')
         return
-    zero = ({a.space, b.space} == {'occ', 'virt'}) or \
-        (a.spin and b.spin and a.spin != b.spin)
+    # expected from the case's own labels, not from the library's attributes
+    (na, sa), (nb, sb) = (ir.split_index(case[x].replace("'", ''))
+                          for x in ('a', 'b'))
+    zero = ({ir.index_space(na), ir.index_space(nb)} == {'occ', 'virt'}) or \
+        bool(sa and sb and sa != sb)
     if zero:
         if d1 is not S.Zero or d2 is not S.Zero:
             res.violation(f'delta({a},{b}) between different spaces/spins is '
